@@ -160,17 +160,32 @@ def check_intint(job):
         a, VA, ia = env.make_pylong('a', 5)
         b, VB, ib = env.make_pylong('b', 5)
         ex.global_ptr('_Py_TrueStruct'); ex.global_ptr('_Py_FalseStruct')
+        deleg = []
+
+        def rich(ex_, g, args, rt, caller):
+            r = ex_.ptr_to(env.new_object('res:rich', dict(kind='rich'))) if rt.kind == 'ptr' else ex_.fresh_of(rt, 'rich')
+            deleg.append(env.event(g, 'rich', args, r))
+            return r
+        for nm in ('PyObject_RichCompare', '__Pyx_PyObject_RichCompareBool', 'PyObject_RichCompareBool'):
+            ex.stubs[nm] = rich
         ret, rg = ex.run(fname, [a, b])
     except (symex.Unsupported, ir.ParseError, KeyError, IndexError) as e:
         return [dict(name='%s:encode' % fname, status='inconclusive', s=time.time() - t0, detail='Unsupported: %s' % e, mandatory=True)]
     pre = [ia, ib] + list(ex.assumptions)
     it, if_ = truth_of(ex, ret)
     want = cmp_expr(op, VA, VB)
+    delegated = z3.BoolVal(False)
+    for e in deleg:
+        if isinstance(ret, Ptr) != isinstance(e.ret, Ptr):
+            same = z3.BoolVal(True)
+        else:
+            same = (ret.bv == e.ret.bv) if isinstance(ret, Ptr) else (ret == e.ret)
+        delegated = z3.Or(delegated, z3.And(e.guard, e.args[0].bv == a.bv, e.args[1].bv == b.bv, e.args[2] == dict(OPS)[op], same))
 
     def cexf(m):
         return dict(kind='intint', op=op, a=m.eval(VA, model_completion=True).as_signed_long(), b=m.eval(VB, model_completion=True).as_signed_long(), variant=variant)
     ob = _ob(out, 'int %s int [%s]' % (PYOP[op], variant), pre, cexf)
-    ob('True/False exactly as the mathematical comparison, for all ints up to 5 digits (150 bits)', [z3.Not(z3.And(rg, z3.If(want, it, if_)))])
+    ob('True/False exactly as the mathematical comparison (or handed to CPython unchanged), for all ints up to 5 digits (150 bits)', [z3.Not(z3.And(rg, z3.Or(z3.If(want, it, if_), delegated)))])
     if ex.unwind:
         ob('loop unwinding bound suffices', [z3.Or(*[u[0] for u in ex.unwind])])
     ubs = [c for c, d_, f_ in ex.ub]
